@@ -50,7 +50,8 @@ impl Object for Encoding {
                             }
                             Primitive::Name(name) => {
                                 differences.insert(gid, name);
-                                gid += 1;
+                                // (the code comes from the file and may be anything)
+                                gid = gid.wrapping_add(1);
                             }
                             _ => bail!("Unknown part primitive in dictionary: {:?}", part),
                         }
